@@ -717,6 +717,25 @@ pub fn cmd_roundtrip(args: &[String]) {
     }
     let mut rep = Report::new();
     let mut rng = Rng::new(seed);
+    // "all key pairs derived from any seed": the pair every route derives is the one libsodium's construction defines
+    // (sk = SHA-512(seed)[..32], pk = sk * base), with the secret half in the secret field
+    if first == 0 {
+        for n in (0..=40usize).chain([64, 128]) {
+            let sd = rng.bytes(n);
+            let mut h = [0u8; 64];
+            let mut want_pk = [0u8; 32];
+            unsafe { so::crypto_hash_sha512(h.as_mut_ptr(), sd.as_ptr(), sd.len() as u64); so::crypto_scalarmult_base(want_pk.as_mut_ptr(), h.as_ptr()); }
+            let want = (want_pk.to_vec(), h[..32].to_vec());
+            let mut routes: Vec<(&str, (Vec<u8>, Vec<u8>))> = vec![];
+            let (p, k) = cb::crypto_box_seed_keypair(&sd); routes.push(("crypto_box_seed_keypair", (p.to_vec(), k.to_vec())));
+            let kp: dryoc::dryocbox::KeyPair = KeyPair::from_seed(&sd); routes.push(("KeyPair<Stack>::from_seed", (kp.public_key.to_vec(), kp.secret_key.to_vec())));
+            let kp: KeyPair<[u8; 32], [u8; 32]> = KeyPair::from_seed(&sd); routes.push(("KeyPair<[u8;32]>::from_seed", (kp.public_key.to_vec(), kp.secret_key.to_vec())));
+            for (name, got) in routes {
+                rep.evaluations += 1;
+                if got != want { rep.fail(&format!("{}: the key pair derived from a seed is not the one libsodium's construction defines", name), json!({"seed_len": n, "public_key": hex(&got.0), "expected_public_key": hex(&want.0), "secret_matches": got.1 == want.1})); }
+            }
+        }
+    }
     for (ti, (cons, encv, openv)) in triples.iter().enumerate() {
         let encs = enc_impls(cons, encv);
         let opens = open_impls(cons, openv);
@@ -812,7 +831,7 @@ pub fn cmd_tamper(args: &[String]) {
     let first: usize = args[4].parse().unwrap();
     let stride: usize = args[5].parse().unwrap();
     let mut rows: std::collections::BTreeSet<(String, String, String)> = Default::default();
-    let mut err_texts: std::collections::HashMap<(String, usize), std::collections::HashSet<String>> = Default::default();
+    let mut err_texts: std::collections::HashMap<(String, usize, usize), std::collections::HashSet<String>> = Default::default();
     for line in std::io::BufReader::new(std::fs::File::open(&args[0]).unwrap()).lines() {
         let c: Value = serde_json::from_str(&line.unwrap()).unwrap();
         let f = c["fault"].as_str().unwrap();
@@ -884,7 +903,7 @@ pub fn cmd_tamper(args: &[String]) {
                             // C17: the error value of a rejected open carries nothing derived from the ciphertext - over all the
                             // corruptions of one length presented to one entry point it takes a handful of values, not one per ciphertext
                             if let (false, Some(t)) = (r.ok, take_err()) {
-                                let set = err_texts.entry((on.to_string(), c.len())).or_insert_with(std::collections::HashSet::new);
+                                let set = err_texts.entry((on.to_string(), len, c.len())).or_insert_with(std::collections::HashSet::new);
                                 set.insert(t.clone());
                                 if set.len() == 4 {
                                     rep.fail(&format!("C17 {}: the error value of a rejected open varies with the rejected ciphertext", on), json!({"len": len, "wire_len": c.len(), "texts": set.iter().take(4).collect::<Vec<_>>(), "seed": seed}));
